@@ -1680,6 +1680,9 @@ func (x *Exec) cutLoop(f *Frame, li *loopInfo) {
 		for v, r := range f.regs {
 			if a, ok := v.(*ssa.Alloc); ok && a.Heap && r.LV != nil && r.LV.kind == LVCell && len(r.LV.path) == 0 {
 				if x.cellHeapName(a.Type().(*types.Pointer).Elem()) == h {
+					if unaliasedCell(a, li) && !storedIn(a, li) {
+						continue // never aliased before the function returns and not assigned in this loop: it keeps its value
+					}
 					fr.excl = append(fr.excl, r.LV.base)
 				}
 			}
@@ -2219,4 +2222,62 @@ func (x *Exec) registerSpecTags(con *Contract) {
 	for _, n := range names {
 		walk(x.db.Specs[n].Body, pkgPath)
 	}
+}
+
+// unaliasedCell: every use of the address-taken local that can be executed before or during the loop is a
+// load or a direct store to it -- no pointer to it exists while the loop runs, so only direct stores change
+// it there. Uses in blocks from which the loop header is unreachable (e.g. returning its address) are free.
+func unaliasedCell(a *ssa.Alloc, li *loopInfo) bool {
+	refs := a.Referrers()
+	if refs == nil || li.header == nil {
+		return false
+	}
+	reach := map[*ssa.BasicBlock]bool{}
+	var reaches func(b *ssa.BasicBlock) bool
+	reaches = func(b *ssa.BasicBlock) bool {
+		if b == li.header {
+			return true
+		}
+		if done, ok := reach[b]; ok {
+			return done
+		}
+		reach[b] = false
+		for _, s := range b.Succs {
+			if reaches(s) {
+				reach[b] = true
+				return true
+			}
+		}
+		return false
+	}
+	for _, r := range *refs {
+		switch i := r.(type) {
+		case *ssa.UnOp:
+			if i.Op == token.MUL {
+				continue
+			}
+		case *ssa.Store:
+			if i.Addr == ssa.Value(a) && i.Val != ssa.Value(a) {
+				continue
+			}
+		case *ssa.DebugRef:
+			continue
+		}
+		if r.Block() == nil || reaches(r.Block()) {
+			return false
+		}
+	}
+	return true
+}
+
+// storedIn: the loop body contains a direct store to the local.
+func storedIn(a *ssa.Alloc, li *loopInfo) bool {
+	for b := range li.body {
+		for _, ins := range b.Instrs {
+			if s, ok := ins.(*ssa.Store); ok && s.Addr == ssa.Value(a) {
+				return true
+			}
+		}
+	}
+	return false
 }
